@@ -1783,3 +1783,19 @@ where
         }
     }
 }
+
+#[cfg(feature = "verif")]
+impl<T, B> Connection<T, B>
+where
+    B: Buf + Send + 'static,
+{
+    /// Verification builds only: read-only statistics handle.
+    pub fn verif_stats_handle(&self) -> crate::verif::StatsHandle {
+        self.connection.verif_stats_handle()
+    }
+
+    /// Verification builds only: codec buffer statistics.
+    pub fn verif_codec_stats(&self) -> crate::verif::CodecStats {
+        self.connection.verif_codec_stats()
+    }
+}
